@@ -8,7 +8,8 @@
 //! number of logging generators (0..=3, all healthy, one small file each) x `--dry-run` (2) x `-A` (none, `All`,
 //! `Deprecated` = the lint the warning classes produce) x `-O out` given or not (2) x diagnostic format (human,
 //! json).  Family `generator-failure`: error-free programs (clean / warnings only) with 1..3 generators of which
-//! exactly one fails (missing executable, exit 1, empty reply), for the "exit status ... or from a generator that
+//! exactly one fails (missing executable, exit 1, empty reply, killed by a signal after its reply, a well-formed
+//! reply that carries a diagnostic of level Error), for the "exit status ... or from a generator that
 //! failed" half of the statement (the full fault catalogue is C18's).  Every combination is one run of the real
 //! `slicec` binary.
 //!
@@ -26,7 +27,7 @@ use std::time::Duration;
 pub fn meta(m: &mut PropMeta) {
     m.rule = "two complete products, every combination executed as one run of the real slicec binary in a private directory. Family product: program class {clean, warnings only (use of a [deprecated] type), missing file, directory named x.slice, file with invalid UTF-8, preprocessor error, syntax error, unknown attribute, unresolved type, containment cycle, redefinition, rule violation (empty compact struct), rule violation in one file + warning in another} x position of the offending file among three source files x 0..3 logging fake generators (healthy: read the request, reply with one small file) x --dry-run on/off x -A {none, All, Deprecated} x -O given or not x --diagnostic-format {human, json}. Family generator-failure: {clean, warnings only} x 1..3 generators of which exactly one (every position) fails {missing executable, exit status 1 after a valid reply, empty reply} x -A x format x --dry-run. Oracle (from the statement): a generator's start marker exists iff the program class has no error and --dry-run is off (all configured startable generators, each started exactly once); no path of the working/output directory is created or changed unless generators were expected to run, and when they are every healthy generator's file exists with the bytes sent; exit status != 0 iff stderr carries >= 1 error diagnostic ('error [' line / JSON object with severity error); an error class or a failing generator gives >= 1 error diagnostic, a clean/warning class with healthy generators none; no signal, panic or hang. non-trivial = at least one generator configured or the program class has an error; distinct = distinct rendered scenarios; outcome class = (exit status, set of generators that ran, #error diagnostics, #warning diagnostics, #paths changed).";
     m.explanation = "process-level enumeration of the complete option/program-class product against the gating rule of the statement, observed through the start markers and captured stdin of scripted fake generators";
-    m.quick_bound = "product: 13 program classes x 3 positions x 0..3 generators x dry-run x 3 -A values x -O x 2 formats = 3744 runs; generator-failure: 2 classes x 6 (count, failing position) x 3 faults x 3 -A x 2 formats x dry-run = 432 runs (both complete)";
+    m.quick_bound = "product: 13 program classes x 3 positions x 0..3 generators x dry-run x 3 -A values x -O x 2 formats = 3744 runs; generator-failure: 2 classes x 6 (count, failing position) x 5 faults (missing executable, exit 1, empty reply, signal after the reply, a reply carrying an Error-level diagnostic) x 3 -A x 2 formats x dry-run = 720 runs (both complete)";
     m.thorough_bound = "same complete products (4176 runs)";
     m.quick_cap_s = 45.0;
     m.thorough_cap_s = 120.0;
@@ -157,9 +158,12 @@ enum GenFault {
     EmptyReply,
     /// reads the request, sends a valid reply, then is killed by a signal (no exit status at all)
     SignalAfterReply,
+    /// reads the request, sends a well-formed reply that carries a diagnostic of level Error, exits 0: the generator
+    /// says itself that it failed (whether the files it names are written is left open by the statement)
+    ReplyReportsError,
 }
 
-const GEN_FAULTS: [GenFault; 4] = [GenFault::Missing, GenFault::Exit1, GenFault::EmptyReply, GenFault::SignalAfterReply];
+const GEN_FAULTS: [GenFault; 5] = [GenFault::Missing, GenFault::Exit1, GenFault::EmptyReply, GenFault::SignalAfterReply, GenFault::ReplyReportsError];
 
 struct Case {
     class: Class,
@@ -202,7 +206,7 @@ fn case_of(idx: u64) -> Case {
 
 /// (number of generators, index of the failing one)
 const FAIL_POSITIONS: [(usize, usize); 6] = [(1, 0), (2, 0), (2, 1), (3, 0), (3, 1), (3, 2)];
-const RADICES_GF: [u64; 6] = [6, 4, 2, 3, 2, 2];
+const RADICES_GF: [u64; 6] = [6, 5, 2, 3, 2, 2];
 
 fn case_of_gf(idx: u64) -> Case {
     let d = decode_index(idx, &RADICES_GF);
@@ -273,6 +277,10 @@ fn scenario(c: &Case) -> Scenario {
             Some((f, GenFault::Exit1)) if f == i => Install::Script(Script(vec![Step::ReadAll, Step::Stdout(reply), Step::Exit(1)])),
             Some((f, GenFault::EmptyReply)) if f == i => Install::Script(Script(vec![Step::ReadAll, Step::Exit(0)])),
             Some((f, GenFault::SignalAfterReply)) if f == i => Install::Script(Script(vec![Step::ReadAll, Step::Stdout(reply), Step::Kill(11)])),
+            Some((f, GenFault::ReplyReportsError)) if f == i => {
+                let d = proc::RDiag { level: 2, message: format!("generator {i} could not generate code"), source: None };
+                Install::Script(Script(vec![Step::ReadAll, Step::Stdout(proc::encode_reply(&[gen_file(i)], &[d])), Step::Exit(0)]))
+            }
             _ => Install::Script(Script(vec![Step::ReadAll, Step::Stdout(reply), Step::Exit(0)])),
         };
         gens.push(Gen { name: format!("g{i}"), install });
@@ -549,6 +557,11 @@ fn judge(fam: &str, c: &Case) -> CaseOut {
                         ),
                     }
                     expected_paths.push(p);
+                }
+                if let Some((f, GenFault::ReplyReportsError)) = c.failing {
+                    // left open: the reply is well formed, its file may or may not be written
+                    let path = gen_file(f).path;
+                    expected_paths.push(if c.outdir { format!("out/{path}") } else { path });
                 }
                 let unexpected: Vec<&String> = changed.iter().filter(|p| !expected_paths.contains(p)).collect();
                 if !unexpected.is_empty() {
